@@ -260,6 +260,20 @@ def run_program(rec, hub, seed_rng, steps, letters="abcd", ill_rate=0.3, props=(
                     return [s_.stock, s_.inflow, s_.outflow]
 
                 return (f"stock: compute that cannot succeed ({how}, {solver})", None, [failing_compute])
+            if ill and len(sl) > 1 and rng.random() < 0.3:
+                # same letters, but one dimension is ANOTHER dimension under that letter: a single aggregate item ("world") or as many
+                # items with other labels - such arrays / models are not over the stock's dimensions
+                l_o = sl[-1]
+                base_o = Ut[l_o]
+                other_o = fd.Dimension(letter=l_o, name=base_o.name, items=(["aggregate"] if rng.random() < 0.5 else [f"other {q}" for q in range(len(base_o.items))]))
+                ds_o = fd.DimensionSet(dim_list=[other_o if l == l_o else Ut[l] for l in sl])
+                what_o = int(rng.integers(0, 4))
+                if what_o < 3:
+                    attr_o = ("inflow", "stock", "outflow")[what_o]
+                    bad_o = fd.StockArray(dims=ds_o, values=np.ones(ds_o.shape))
+                    return (f"stock: {attr_o} over a same-lettered other dimension", None, [lambda: fd.SimpleFlowDrivenStock(dims=ds, time_letter="t", **{attr_o: bad_o})])
+                lm_o = fd.NormalLifetime(dims=ds_o, time_letter="t", mean=3.0, std=1.0)
+                return ("stock: lifetime model over a same-lettered other dimension", None, [lambda: fd.InflowDrivenDSM(dims=ds, lifetime_model=lm_o, time_letter="t")])
             # the ill-dimensioned array may be of any array class (a Parameter, a plain FlodymArray ...), not only a StockArray
             acls = [fd.StockArray, fd.StockArray, fd.Parameter, fd.FlodymArray][int(rng.integers(0, 4))]
             if c == 0 and len(sl) > 1:  # array with permuted dims
